@@ -95,9 +95,10 @@ static ares_status_t ares_search_next(ares_channel_t      *channel,
   status = ares_send_nolock(channel, NULL, 0, squery->dnsrec, search_callback,
                             squery, NULL);
 
-  if (status != ARES_EFORMERR) {
-    *skip_cleanup = ARES_TRUE;
-  }
+  /* ares_send_nolock() invokes the callback on every failure path (including
+   * ARES_EFORMERR when the name can't be serialized), so search_callback() has
+   * already run and released squery.  The caller must never clean up again. */
+  *skip_cleanup = ARES_TRUE;
 
   return status;
 }
